@@ -15,19 +15,20 @@ EXPLANATION = ('Totality of the leaf guards, decided by solvers over the real co
                'a candidate at distance exactly 0. Global consistency of tie decisions between cells is NOT claimed: a genuine defect in that area '
                '(generators exactly on a wall) is listed in known_findings.json and re-observed natively by this check.')
 
+BND = 'one symbolic axis (others constant); |anchor| <= 2^20, 2^-10 <= width <= 2^20; full f64; iloc debug assertions enabled'
 KANI_QUICK = [
-    {'name': 'iloc_any_position_x', 'role': 'proof', 'timeout': 800,
-     'bounds': 'one symbolic axis (others constant); |anchor| <= 2^20, 2^-10 <= width <= 2^20, position anywhere in [A - 1.25 W, A + 2.25 W] (box, mirrors, margin); full f64'},
-    {'name': 'iloc_any_position_periodic_x', 'role': 'proof', 'timeout': 800,
-     'bounds': 'same for the tripled periodic box (A = a - w, W = 3 w): periodic images and mirror images through the tripled walls'},
+    {'name': 'iloc_x_box', 'role': 'proof', 'timeout': 900, 'bounds': BND + '; position in the closed box [a, a+w]'},
+    {'name': 'iloc_x_above', 'role': 'proof', 'timeout': 1200, 'bounds': BND + '; position in [a+w, a+2w] (mirror images through the upper wall, incl. the image of a generator on the lower wall)'},
+    {'name': 'iloc_x_below', 'role': 'proof', 'timeout': 1200, 'bounds': BND + '; position in [a-w-h, a], 4h <= w (mirror images through the lower wall, with margin)'},
     {'name': 'halfspace_new_errb_positive_axis', 'role': 'proof', 'timeout': 300, 'bounds': 'n = (nx,0,0), p = (px,0,0), all finite |.| <= 1e150'},
     {'name': 'iloc_witness', 'role': 'witness', 'timeout': 600, 'bounds': 'vacuity witness of the box assumptions'},
 ]
 KANI_THOROUGH = KANI_QUICK + [
-    {'name': 'iloc_any_position_y', 'role': 'proof', 'timeout': 1500, 'bounds': 'as iloc_any_position_x, y axis'},
-    {'name': 'iloc_any_position_z', 'role': 'proof', 'timeout': 1500, 'bounds': 'as iloc_any_position_x, z axis'},
-    {'name': 'iloc_any_position_periodic_y', 'role': 'proof', 'timeout': 1500, 'bounds': 'periodic, y axis'},
-    {'name': 'iloc_any_position_periodic_z', 'role': 'proof', 'timeout': 1500, 'bounds': 'periodic, z axis'},
+    {'name': 'iloc_%s_%s' % (ax, seg), 'role': 'proof', 'timeout': 2400, 'bounds': BND + '; axis %s, segment %s' % (ax, seg)}
+    for ax in ('y', 'z') for seg in ('below', 'box', 'above')
+] + [
+    {'name': 'iloc_periodic_x_%s' % seg, 'role': 'proof', 'timeout': 2400, 'bounds': BND + '; periodic (tripled box A = a-w, W = 3w), segment %s' % seg}
+    for seg in ('below', 'box', 'above')
 ]
 
 
@@ -58,9 +59,9 @@ def check(run):
     GR.cuboid(run, funcs, 'C05')
     GR.right_loc(run, funcs, 'C05')
     GR.build_loop(run, funcs, 'C05')
-    kanirun.run(run, 'C05', KANI_QUICK if run.tier == 'quick' else KANI_THOROUGH, jobs=8)
+    kanirun.run(run, 'C05', KANI_QUICK if run.tier == 'quick' else KANI_THOROUGH, jobs=12)
     known_findings(run)
-    run.assume('float rounding inside the mirror-image computation (2*proj - x) is covered by the W/4 margin of the Kani interval; the reflection itself is exact over the reals (MIR obligation)')
+    run.assume('bit-precise claim: positions in [A - W - h, A + 2W] as computed in f64; a mirror image that rounding pushes a few ulps above A + 2W is covered only by the real-arithmetic obligation (margin W/8)')
     run.assume('global consistency of tie decisions, termination of the whole build and the det != 0 assert of intersect_planes on near-parallel bisectors are outside the claim')
     return run.finish(LEVEL, EXPLANATION, trusted=['rustc -Zunpretty=mir', 'z3 5.1.0 / 4.8.12, cvc5 1.0.3', 'Kani 0.68 / CBMC 6.11 (IEEE-754 model)'])
 
